@@ -160,9 +160,31 @@ func (r *Runner) applyBulkResult(lc loaderCall, isRefresh bool, log []HookCall) 
 	if err := r.preReconcile(all); err != nil {
 		return err
 	}
+	oldOf := map[int]int{}
+	hasOld := lc.Kind == "bulkreload"
+	for i, k := range lc.Keys {
+		if hasOld && i < len(lc.Olds) {
+			oldOf[k] = lc.Olds[i]
+		}
+	}
 	req := map[int]bool{}
 	for _, k := range keys {
 		req[k] = true
+		// the result of a requested key is applied only if the key still maps to what the call saw when it
+		// started (absent/expired for a load, the reloaded value for a reload): a value volunteered by the other
+		// half of the same call, or any write in between, supersedes it
+		cur := r.M[k]
+		if !r.autoRemovedStep[k] { // (an automatic removal in this very step is handled by applyLoadResult)
+			if hasOld {
+				if cur == nil || cur.Val != oldOf[k] {
+					r.St.SupersededRefresh++
+					continue
+				}
+			} else if cur != nil && r.live(cur) {
+				r.St.SupersededRefresh++
+				continue
+			}
+		}
 		if v, ok := lc.Res[k]; ok {
 			if err := r.applyLoadResult(k, v, nil, false, isRefresh, log); err != nil {
 				return err
@@ -590,6 +612,18 @@ func (r *Runner) applyDeferredLoads() error {
 		}
 		return false
 	}
+	// A refresh handed to a deferred executor applies its result only if the key still maps to what the
+	// triggering call saw (a write, invalidation or eviction in between supersedes it).
+	unchanged := func(k int, old int, hasOld bool) bool {
+		cur := r.M[k]
+		if r.autoRemovedStep[k] {
+			return true // decided by applyLoadResult from what the cache reports
+		}
+		if hasOld {
+			return cur != nil && cur.Val == old
+		}
+		return cur == nil || !r.live(cur)
+	}
 	for _, lc := range calls {
 		r.St.Reloads++
 		switch lc.Kind {
@@ -608,6 +642,15 @@ func (r *Runner) applyDeferredLoads() error {
 			if err := r.preReconcile(lc.Keys); err != nil {
 				return err
 			}
+			if !unchanged(lc.Keys[0], old, hasOld) {
+				if lc.Err != nil && !isNotFound(lc.Err) {
+					if cur := r.M[lc.Keys[0]]; cur != nil && r.live(cur) {
+						r.applyRef(cur, "fail")
+					}
+				}
+				r.St.SupersededRefresh++
+				continue
+			}
 			if err := r.applyLoadResult(lc.Keys[0], lc.Val, lc.Err, isNotFound(lc.Err), true, log); err != nil {
 				return err
 			}
@@ -624,6 +667,45 @@ func (r *Runner) applyDeferredLoads() error {
 			}
 			if lc.Err != nil || len(lc.Res) < len(lc.Keys) {
 				r.St.ReloadNotSuccess++
+			}
+			// keys whose mapping changed since the refresh was triggered are skipped (superseded)
+			if lc.Err == nil {
+				if err := r.preReconcile(lc.Keys); err != nil {
+					return err
+				}
+				var keep []int
+				var keepOlds []int
+				for i, k := range lc.Keys {
+					old := 0
+					if hasOld {
+						old = lc.Olds[i]
+					}
+					if unchanged(k, old, hasOld) {
+						keep = append(keep, k)
+						if hasOld {
+							keepOlds = append(keepOlds, old)
+						}
+					} else {
+						r.St.SupersededRefresh++
+					}
+				}
+				filtered := lc
+				filtered.Keys, filtered.Olds = keep, keepOlds
+				res := map[int]int{}
+				drop := map[int]bool{}
+				for _, k := range lc.Keys {
+					drop[k] = true
+				}
+				for _, k := range keep {
+					drop[k] = false
+				}
+				for k, v := range lc.Res {
+					if !drop[k] {
+						res[k] = v
+					}
+				}
+				filtered.Res = res
+				lc = filtered
 			}
 			if err := r.applyBulkResult(lc, true, log); err != nil {
 				return err
